@@ -11,7 +11,8 @@ it in a computed allowance).
 
 Positive semi-definiteness for `0 < q ≤ p ≤ 2` (`C05_psd`, Schoenberg's theorem) is proved in full
 (`C05_psd_holds`; `Lemmas/PsdKernel.lean`, `Lemmas/PsdBernstein.lean`, `Lemmas/PsdLpq.lean`,
-`Lemmas/KernelPsd.lean`), with the L2, product and memory-light kernels as corollaries.
+`Lemmas/KernelPsd.lean`), with the L2, product and memory-light kernels as corollaries; the sum-power
+kernel with a natural power is PSD as well (`psd_sumPower_nat`).
 -/
 import Xrfmv.Lemmas.Kernel
 import Xrfmv.Lemmas.KernelPsd
@@ -271,12 +272,21 @@ theorem psd_light_none {q L : ℝ} (hq : 0 < q) (hq2 : q ≤ 2) (hL : 0 < L) {d 
     0 ≤ ∑ i, ∑ j, w i * w j * entry (.light q L) .none (List.ofFn (xs i)) (List.ofFn (xs j)) := by
   simpa only [light_eq_l2_none] using psd_laplace hq hq2 hL .none xs w
 
+/-- Beyond the claim of C05 (which is about the Laplace family): the sum-power kernel
+`((1−c)·mean_d exp(−|Δ_d|^q/L^q) + c)^P` is positive semi-definite too for `0 < q ≤ 2`, `0 ≤ c ≤ 1` and a
+natural power `P` (mean of one-dimensional PSD kernels, a non-negative constant, Schur powers). -/
+theorem psd_sumPower_nat {q L c : ℝ} (hq : 0 < q) (hq2 : q ≤ 2) (hL : 0 < L) (hc0 : 0 ≤ c) (hc1 : c ≤ 1)
+    (P : ℕ) (T : Transform ℝ) {d n : ℕ} (xs : Fin n → Fin d → ℝ) (w : Fin n → ℝ) :
+    0 ≤ ∑ i, ∑ j, w i * w j * entry (.sumPower q L c (P : ℝ)) T (List.ofFn (xs i)) (List.ofFn (xs j)) :=
+  Kernel.sumPower_gram_psd hq hq2 hL hc0 hc1 P T xs w
+
 /-- Non-vacuity / sharpness: the hypotheses are met by the defaults (`p = 2`, `q = 1`), and the
 statement is about a kernel that is not constant (two distinct points give an entry below 1). -/
 example : (0 : ℝ) < 1 ∧ (1 : ℝ) ≤ 2 ∧ (2 : ℝ) ≤ 2 ∧ (0 : ℝ) < 5 := by norm_num
 
 /-- What follows from symmetry, unit diagonal and range alone: every `2 × 2` Gram matrix (two points) is
-positive semi-definite — for every kernel (the sum-power kernel included), not only `q ≤ p ≤ 2`. -/
+positive semi-definite — for every kernel and every parameter value, not only `q ≤ p ≤ 2` (and not only
+natural powers of the sum-power kernel). -/
 theorem psd_two_points_partial (K : Spec ℝ) (hK : Valid K) (T : Transform ℝ) (x z : List ℝ)
     (hM : K.isLight = true → dot (applyT T x) z = dot (applyT T z) x)
     (hne : K.isSumPower = true → applyT T x ≠ [] ∧ applyT T z ≠ []) (a b : ℝ) :
